@@ -511,6 +511,9 @@ def k_render_field(R, maxq, props):
                     d = dwith[0]
                     good = d is not None and d[0] == 'src'
                     helper = d[1] if good else ''
+                    if d is not None and d[0] == 'lit' and isinstance(d[1], str):
+                        # the path given as an interpolated string literal instead of literal source text
+                        helper = '"' + d[1] + '"'
                     claims['C16:only-id'] = is_id
                     sig = ID_HELPERS.get(helper)
                     if sig is None:
